@@ -1,10 +1,10 @@
 (* C01 (whole conversion) / C03 (tree builder) — two facts about build_from:
-   (1) the embedded-document fuel only matters when it runs out: a result other than BFuel is the result for every
-       larger fuel;
-   (2) when fuel 1 suffices (no character data was recognised as an embedded document), every additive measure of
-       the tree is bounded by the same measure of the events: an element costs what its start event costs, a text
-       what its character-data events cost (merging adjacent texts does not add anything), a CDATA node is charged
-       to the character data that opened it. *)
+   (1) it never reports BFuel: its recursion is structural in the number of embedding levels, and every parse of an
+       embedded document gets one unit of fuel more than its length (Proofs/ParserTotal.v);
+   (2) every additive measure of the tree is bounded by the same measure of the events: an element costs what its
+       start event costs, a text what its character-data events cost (merging adjacent texts does not add anything),
+       a CDATA node is charged to the character data that opened it, and an embedded document to the character data
+       it was parsed from (mS: a bound on what a document parsed from those bytes, one level further down, measures). *)
 From Coq Require Import String Ascii.
 From Coq Require Import List NArith ZArith Lia Bool.
 From Wbxml Require Import Model.Codec Model.TablesDefs Model.Parser Model.TreeBuild
@@ -15,40 +15,49 @@ Local Open Scope N_scope.
 Lemma list_sum_cons_nat x l : list_sum (x :: l) = (x + list_sum l)%nat.
 Proof. reflexivity. Qed.
 
-(* ---- (1) monotonicity in the fuel ---- *)
+(* ---- (1) the tree builder never reports BFuel ---- *)
 Lemma build_from_cons tbl ef e r st :
   build_from tbl ef (e :: r) st =
   match build_from tbl ef [e] st with BOk st1 => build_from tbl ef r st1 | BErr x => BErr x | BFuel => BFuel end.
 Proof. exact (build_from_app tbl ef [e] r st). Qed.
 
-Lemma build_from_nil tbl ef st : build_from tbl (S ef) [] st = BOk st.
-Proof. reflexivity. Qed.
-
-Lemma build_from_mono tbl : forall ef evs st r, build_from tbl ef evs st = r -> r <> BFuel ->
-  forall k, build_from tbl (ef + k) evs st = r.
+Lemma build_from_total tbl : forall lv evs st, build_from tbl lv evs st <> BFuel.
 Proof.
-  induction ef as [|ef IHf]; intros evs st r H Hr k; [cbn in H; congruence|].
-  revert st r H Hr. induction evs as [|e evs IHe]; intros st r H Hr; [exact H|].
-  change (S ef + k)%nat with (S (ef + k)). rewrite build_from_cons in H |- *.
-  assert (H1 : forall r1, build_from tbl (S ef) [e] st = r1 -> r1 <> BFuel -> build_from tbl (S (ef + k)) [e] st = r1).
-  { clear IHe H Hr. intros r1 H1 Hr1. destruct e as [cs lid|t attrs|ch|tg dt|t|]; try exact H1.
-    cbn [build_from] in H1 |- *. destruct (syncml_data_type (b_stack st)); try exact H1.
-    destruct (parse_with tbl 0 (b_charset st) (S (length ch)) ch) as [evs'| |]; try exact H1.
-    destruct (build_from tbl ef evs' st_init) as [st'|x|] eqn:E.
-    - rewrite (IHf evs' st_init (BOk st') E ltac:(discriminate) k). exact H1.
-    - rewrite (IHf evs' st_init (BErr x) E ltac:(discriminate) k). exact H1.
-    - congruence. }
-  destruct (build_from tbl (S ef) [e] st) as [st1|x|] eqn:E1.
-  - rewrite (H1 (BOk st1) eq_refl ltac:(discriminate)). apply IHe; assumption.
-  - rewrite (H1 (BErr x) eq_refl ltac:(discriminate)). exact H.
-  - congruence.
+  induction lv as [|lv IHl]; induction evs as [|e r IH]; intros st; rewrite build_from_eq; try discriminate; unfold bnext.
+  - destruct e as [cs lid|t attrs|ch|tg dt|t|]; try apply IH.
+    + destruct (cb_start_element t attrs st) as [s1|x|] eqn:E; [apply IH|discriminate|].
+      revert E. unfold cb_start_element. destruct (b_stack st); [destruct (b_root st)|]; discriminate.
+    + assert (Ha : forall s n, add_to_current s n <> BFuel).
+      { intros s n. unfold add_to_current. destruct (b_stack s); [destruct (b_root s)|]; discriminate. }
+      destruct (syncml_data_type (b_stack st)).
+      * destruct (add_to_current st (TText ch)) eqn:E; [apply IH|discriminate|exfalso; exact (Ha _ _ E)].
+      * destruct (add_to_current st (TText ch)) eqn:E; [apply IH|discriminate|exfalso; exact (Ha _ _ E)].
+      * destruct (add_to_current (open_cdata st) (TText ch)) eqn:E; [apply IH|discriminate|exfalso; exact (Ha _ _ E)].
+    + destruct (cb_end_element st) as [s1|x|] eqn:E; [apply IH|discriminate|].
+      revert E. unfold cb_end_element. destruct (b_stack st) as [|f [|p up]]; [discriminate| |discriminate]. destruct (f_cdata f); discriminate.
+  - destruct e as [cs lid|t attrs|ch|tg dt|t|]; try apply IH.
+    + destruct (cb_start_element t attrs st) as [s1|x|] eqn:E; [apply IH|discriminate|].
+      revert E. unfold cb_start_element. destruct (b_stack st); [destruct (b_root st)|]; discriminate.
+    + assert (Ha : forall s n, add_to_current s n <> BFuel).
+      { intros s n. unfold add_to_current. destruct (b_stack s); [destruct (b_root s)|]; discriminate. }
+      destruct (syncml_data_type (b_stack st)).
+      * destruct (add_to_current st (TText ch)) eqn:E; [apply IH|discriminate|exfalso; exact (Ha _ _ E)].
+      * pose proof (parse_total tbl 0 (b_charset st) ch) as Hp.
+        destruct (parse_with tbl 0 (b_charset st) (S (length ch)) ch) as [evs'|x|]; [| |congruence].
+        -- pose proof (IHl evs' st_init) as Hb. destruct (build_from tbl lv evs' st_init) as [st'|x|]; [| |congruence].
+           ++ cbv zeta. destruct (add_to_current st _) eqn:E; [apply IH|discriminate|exfalso; exact (Ha _ _ E)].
+           ++ destruct (add_to_current st (TText ch)) eqn:E; [apply IH|discriminate|exfalso; exact (Ha _ _ E)].
+        -- destruct (add_to_current st (TText ch)) eqn:E; [apply IH|discriminate|exfalso; exact (Ha _ _ E)].
+      * destruct (add_to_current (open_cdata st) (TText ch)) eqn:E; [apply IH|discriminate|exfalso; exact (Ha _ _ E)].
+    + destruct (cb_end_element st) as [s1|x|] eqn:E; [apply IH|discriminate|].
+      revert E. unfold cb_end_element. destruct (b_stack st) as [|f [|p up]]; [discriminate| |discriminate]. destruct (f_cdata f); discriminate.
 Qed.
 
-Lemma build_mono tbl ef evs r : build tbl ef evs = r -> r <> BFuel -> forall k, build tbl (ef + k) evs = r.
+Theorem tree_from_wbxml_total tbl forced meta lv bs : tree_from_wbxml tbl forced meta lv bs <> BFuel.
 Proof.
-  unfold build. intros H Hr k. destruct (build_from tbl ef evs st_init) as [st|x|] eqn:E; [| |congruence].
-  - rewrite (build_from_mono tbl ef evs st_init _ E ltac:(discriminate) k). exact H.
-  - rewrite (build_from_mono tbl ef evs st_init _ E ltac:(discriminate) k). exact H.
+  unfold tree_from_wbxml, build. pose proof (parse_total tbl forced meta bs) as Hp.
+  destruct (parse_with tbl forced meta (S (length bs)) bs) as [evs|x|]; [|discriminate|congruence].
+  pose proof (build_from_total tbl lv evs st_init) as Hb. destruct (build_from tbl lv evs st_init); [discriminate|discriminate|congruence].
 Qed.
 
 (* ---- (2) additive measures ---- *)
@@ -56,6 +65,7 @@ Section Measure.
 Variable mE : tagname -> list (attrname * bytes) -> nat.      (* an element's own cost *)
 Variable mT : bytes -> nat.                                     (* a text node *)
 Variable mC : nat.                                              (* a CDATA node *)
+Variable mS : bytes -> nat.                                     (* an embedded document parsed from these bytes *)
 Hypothesis mT_app : forall a b, (mT (a ++ b) <= mT a + mT b)%nat.
 
 Fixpoint tm (n : tnode) : nat :=
@@ -70,7 +80,7 @@ Definition tms (l : list tnode) : nat := list_sum (map tm l).
 Definition em (e : event) : nat :=
   match e with
   | EvStartElt t a => mE t a
-  | EvChars b => (mT b + mC)%nat
+  | EvChars b => (mT b + mC + mS b)%nat
   | _ => 0%nat
   end.
 Definition ems (l : list event) : nat := list_sum (map em l).
@@ -168,39 +178,56 @@ Proof.
   destruct (view (b_stack st) []) as [|x r]; cbn [hd_error]; [lia|]. rewrite tms_cons in Hv. lia.
 Qed.
 
-Lemma single_sm tbl e st st' : build_from tbl 1 [e] st = BOk st' -> (sm st' <= sm st + em e)%nat.
+Definition tmr (t : wtree) : nat := match wt_root t with Some n => tm n | None => 0%nat end.
+
+(* what the level below guarantees for an embedded document *)
+Definition sub_ok (tbl : list lang) (lv : nat) : Prop :=
+  match lv with
+  | O => True
+  | S lv' => forall cs ch evs' t', parse_with tbl 0 cs (S (length ch)) ch = POk evs' ->
+               build tbl lv' evs' = BOk t' -> (tmr t' <= mS ch)%nat
+  end.
+
+Lemma single_sm tbl lv e st st' : sub_ok tbl lv -> build_from tbl lv [e] st = BOk st' -> (sm st' <= sm st + em e)%nat.
 Proof.
-  destruct e as [cs lid|t attrs|ch|tg dt|t|]; cbn [build_from em].
+  intros Hsub. rewrite build_from_eq. unfold bnext.
+  assert (Hnil : forall s, build_from tbl lv [] s = BOk s) by (intros s; apply build_from_nil).
+  destruct e as [cs lid|t attrs|ch|tg dt|t|]; cbn [em]; rewrite ?Hnil.
   - intros H. injection H as <-. unfold sm. cbn [b_stack b_root]. lia.
-  - destruct (cb_start_element t attrs st) as [s1| |] eqn:E; try discriminate. intros H. injection H as <-. exact (start_sm _ _ _ _ E).
-  - assert (Ht : forall s0 x, (sm s0 <= sm st + mC)%nat ->
-                  match add_to_current s0 (TText ch) with BOk st'0 => BOk st'0 | BErr er => BErr er | BFuel => BFuel end = BOk x ->
-                  (sm x <= sm st + (mT ch + mC))%nat).
-    { intros s0 x Hs0. destruct (add_to_current s0 (TText ch)) as [s1| |] eqn:E; try discriminate.
-      intros H. injection H as <-. apply add_to_current_sm in E. cbn [tm] in E. lia. }
+  - destruct (cb_start_element t attrs st) as [s1| |] eqn:E; try discriminate. rewrite Hnil. intros H. injection H as <-. exact (start_sm _ _ _ _ E).
+  - assert (Ht : forall s0 n x, (sm s0 + tm n <= sm st + (mT ch + mC + mS ch))%nat ->
+                  match add_to_current s0 n with BOk st'0 => build_from tbl lv [] st'0 | BErr er => BErr er | BFuel => BFuel end = BOk x ->
+                  (sm x <= sm st + (mT ch + mC + mS ch))%nat).
+    { intros s0 n x Hs0. destruct (add_to_current s0 n) as [s1| |] eqn:E; try discriminate. rewrite Hnil.
+      intros H. injection H as <-. apply add_to_current_sm in E. lia. }
     destruct (syncml_data_type (b_stack st)).
-    + apply Ht. lia.
-    + destruct (parse_with tbl 0 (b_charset st) (S (length ch)) ch) as [evs'| |]; [discriminate| |discriminate].
-      apply Ht. lia.
-    + apply Ht. apply open_cdata_sm.
+    + apply Ht. cbn [tm]. lia.
+    + destruct lv as [|lv']; [apply Ht; cbn [tm]; lia|].
+      destruct (parse_with tbl 0 (b_charset st) (S (length ch)) ch) as [evs'| |] eqn:Ep; [| |discriminate].
+      * destruct (build_from tbl lv' evs' st_init) as [s2| |] eqn:Eb; [| |discriminate].
+        -- cbv zeta. apply Ht. cbn [tm].
+           assert (Eb' : build tbl lv' evs' = BOk (tree_of_state s2)) by (unfold build; rewrite Eb; reflexivity).
+           pose proof (Hsub _ _ _ _ Ep Eb') as Hm. unfold tmr in Hm. lia.
+        -- apply Ht. cbn [tm]. lia.
+      * apply Ht. cbn [tm]. lia.
+    + apply Ht. pose proof (open_cdata_sm st). cbn [tm]. lia.
   - intros H. injection H as <-. lia.
-  - destruct (cb_end_element st) as [s1| |] eqn:E; try discriminate. intros H. injection H as <-. apply end_sm in E. lia.
+  - destruct (cb_end_element st) as [s1| |] eqn:E; try discriminate. rewrite Hnil. intros H. injection H as <-. apply end_sm in E. lia.
   - intros H. injection H as <-. lia.
 Qed.
 
-Lemma build_from_sm tbl evs : forall st st', build_from tbl 1 evs st = BOk st' -> (sm st' <= sm st + ems evs)%nat.
+Lemma build_from_sm tbl lv evs : sub_ok tbl lv -> forall st st', build_from tbl lv evs st = BOk st' -> (sm st' <= sm st + ems evs)%nat.
 Proof.
-  induction evs as [|e r IH]; intros st st'.
-  - cbn [build_from]. intros H. injection H as <-. cbn. lia.
-  - rewrite build_from_cons. destruct (build_from tbl 1 [e] st) as [s1| |] eqn:E; try discriminate.
-    intros H. apply single_sm in E. apply IH in H. rewrite ems_cons. lia.
+  intros Hsub. induction evs as [|e r IH]; intros st st'.
+  - rewrite build_from_nil. intros H. injection H as <-. cbn. lia.
+  - rewrite build_from_cons. destruct (build_from tbl lv [e] st) as [s1| |] eqn:E; try discriminate.
+    intros H. apply (single_sm _ _ _ _ _ Hsub) in E. apply IH in H. rewrite ems_cons. lia.
 Qed.
 
-Theorem build_measure tbl evs t : build tbl 1 evs = BOk t ->
-  (match wt_root t with Some n => tm n | None => 0 end <= ems evs)%nat.
+Theorem build_measure tbl lv evs t : sub_ok tbl lv -> build tbl lv evs = BOk t -> (tmr t <= ems evs)%nat.
 Proof.
-  unfold build. destruct (build_from tbl 1 evs st_init) as [st| |] eqn:E; try discriminate.
-  intros H. injection H as <-. apply build_from_sm in E. pose proof (tree_of_state_tm st).
-  assert (H0 : sm st_init = 0%nat) by reflexivity. lia.
+  intros Hsub. unfold build. destruct (build_from tbl lv evs st_init) as [st| |] eqn:E; try discriminate.
+  intros H. injection H as <-. apply (build_from_sm _ _ _ Hsub) in E. pose proof (tree_of_state_tm st).
+  assert (H0 : sm st_init = 0%nat) by reflexivity. unfold tmr. lia.
 Qed.
 End Measure.
